@@ -11,7 +11,7 @@
 From Coq Require Import String.
 From Coq Require Import NArith ZArith List Bool.
 From Cose Require Import Lib.Base Lib.Cbor Lib.CborProofs Model.GoVal Model.CborGo Model.Wire Model.Key Model.MsgLogic Model.Nonce Model.Msg Model.MsgProofs Model.MsgRoundTrip Spec.RFC9052
-     Model.ValueRoundTrip Model.MsgRoundTripFull Model.MsgRoundTripSign Model.MsgRoundTripRecip Lib.GoSem Gen.SlicesGen Model.StripProofs Model.MsgObj Model.MsgObjProofs.
+     Model.ValueRoundTrip Model.MsgRoundTripFull Model.MsgRoundTripSign Model.MsgRoundTripRecip Lib.GoSem Gen.SlicesGen Model.StripProofs Model.MsgObj Model.MsgObjProofs Model.HdrSem Gen.LookupGen Model.LookupProofs Model.WithSignObj.
 Import ListNotations.
 
 Theorem C01_sign1_roundtrip : forall p prot unprot pl ext out pm um,
@@ -256,3 +256,12 @@ Theorem C01_sign_object_consume_is_functional : forall vs data ext,
   end.
 Proof. exact consume_refines_sign. Qed.
 Print Assumptions C01_sign_object_consume_is_functional.
+
+(* ---- the COSE_Sign entries the object model installs on WithSign are the entries the SOURCE's loop over the signers builds
+   (regenerated on every run, Gen/LookupGen.cose_SignMessage_WithSign_loop, translator T16), each held with its protected
+   map and that map's encoding: so the refinement theorems above speak about what the code's loop produces *)
+Theorem C01_sign_object_entries_are_the_source : forall ps ext pb payload, Forall signer_buckets_encodable ps ->
+  MsgObj.sign_entries ps pb ext payload
+  = do l <- cose_SignMessage_WithSign_loop ps ext pb payload; Ok (map sigent_of_sigout l).
+Proof. exact obj_sign_entries_is_source. Qed.
+Print Assumptions C01_sign_object_entries_are_the_source.
